@@ -756,6 +756,15 @@ def _r4(ctx, pkg, rule="R4"):
                 undecided.append(a_)        # a test of the argument this rule cannot evaluate for a list of positions
         return guards_satisfiable(gs, extra)
 
+    def certain(guards):
+        """every test on the way is one the scenario decides: the statement DOES run for a list of positions (a test this rule
+        cannot read -- an opaque predicate -- leaves that open: no verdict can rest on such a case)"""
+        atoms = set()
+        for g, pol in guards:
+            for c, _ in split_guard((simp(g), pol)):
+                _bool_atoms(c, atoms)
+        return all(any(re.search(pat, show(a_)) for pat, _ in SCEN) for a_ in atoms)
+
     # everything that changes self.reaction_list, case by case
     cases = []          # (kind, leaf | None, fact, every test of the argument on the way was evaluated)
     for f in fl.facts:
@@ -816,9 +825,17 @@ def _r4(ctx, pkg, rule="R4"):
         verdicts.append((ok, wrong, v, f))
     if all(o for o, _, _, _ in verdicts):
         ctx.ok(rule, K, W, "exactly the reactions whose position is not listed survive (repeated indices are harmless)")
+    elif any(w and sure.get((id(f), v)) for _, w, v, f in verdicts):
+        _, _, v, f = next(x for x in verdicts if x[1] and sure.get((id(x[3]), x[2])))
+        ctx.bad(rule, K, (NF, f.line), BADMSG, expected=EXP, found=show(v)[:120])
+    elif all(w for _, w, _, _ in verdicts):
+        # every statement that can change the list for a list of positions is understood and removes by something else than the
+        # position: whichever of them runs is wrong -- and if none runs, the listed positions are not removed at all
+        _, _, v, f = verdicts[0]
+        ctx.bad(rule, K, (NF, f.line), BADMSG, expected=EXP, found=show(v)[:120])
     elif any(w for _, w, _, _ in verdicts):
         _, _, v, f = next(x for x in verdicts if x[1])
-        ctx.bad(rule, K, (NF, f.line), BADMSG, expected=EXP, found=show(v)[:120])
+        ctx.unrec(rule, K, (NF, f.line), f"whether this rebuild runs for a list of positions depends on a test this rule cannot read: {show(v)[:100]}")
     else:
         _, _, v, f = next(x for x in verdicts if not x[0])
         ctx.unrec(rule, K, (NF, f.line), f"the list built for a list of positions is not recognised: {show(v)[:120]}")
@@ -965,6 +982,20 @@ def _r4_callers(ctx, pkg, rule="R4"):
                 apps = [f for f in efl.facts if e[0] == "acc" and f.target == e[1] and f.kind in ("append", "mutate", "store", "augstore", "remove")]
                 if apps and all(f.kind == "append" and f.op == "append" and simp(f.value)[0] == "idx" for f in apps):
                     pos.add(i)
+    if len(pos) != 1:
+        # by use: the element E of the returned tuple that another element reads the reactions WITH -- `[reactions[i] for i in E]` --
+        # is a list of positions into the reaction list (the others are lists of reactions), however it was collected
+        from ..valueflow import as_map
+        RLS = (("attr", SELF, "reaction_list"),)
+        for fl_ in (ffl,):
+            rv = [simp(f.value) for f in fl_.facts if f.kind == "return"]
+            pos = set()
+            if len(rv) == 1 and rv[0][0] == "tuple":
+                elts = [simp(simp(e)) for e in rv[0][1]]
+                for j, e in enumerate(elts):
+                    m = as_map(e) if e[0] in ("comp", "copy") else None
+                    if m and not m[3] and m[1][0] == "sub" and m[1][2] == m[0] and m[1][1] in RLS:
+                        pos |= {i for i, x in enumerate(elts) if i != j and x == m[2]}
     if len(pos) != 1:
         ctx.unrec(rule, "find_duplicate_reaction:position list", (NF, fd.lineno), f"cannot tell which element of the returned tuple is the list of positions ({sorted(pos)})")
         return
